@@ -6,6 +6,8 @@ import (
 	"context"
 	"crypto/tls"
 	"fmt"
+	"os"
+	"path/filepath"
 	"google.golang.org/protobuf/proto"
 	"strings"
 	"sync"
@@ -46,6 +48,10 @@ type Case struct {
 	// short = a deadline of ShortMS milliseconds (it may end during any endpoint's attempt)
 	Ctx     string `json:",omitempty"`
 	ShortMS int    `json:",omitempty"`
+	// Spoil: after the first call the client certificate file (a private copy) is overwritten - with garbage, with
+	// nothing, with its first half, with a certificate that does not match the key - and given a newer modification
+	// time; two further calls follow
+	Spoil string `json:",omitempty"`
 }
 
 func gen(t *rapid.T) Case {
@@ -65,6 +71,9 @@ func gen(t *rapid.T) Case {
 		if c.Ctx == "short" {
 			c.ShortMS = rapid.SampledFrom([]int{1, 5, 20, 50, 100, 250, 600, 1500}).Draw(t, "shortMS")
 		}
+	}
+	if c.Ctx == "" && rapid.IntRange(0, 5).Draw(t, "spoilKind") == 3 {
+		c.Spoil = rapid.SampledFrom([]string{"garbage", "empty", "half", "mismatch"}).Draw(t, "spoil")
 	}
 	n := rapid.SampledFrom([]int{1, 1, 2, 2, 3, 3, 3, 4, 6, 8}).Draw(t, "n")
 	for i := 0; i < n; i++ {
@@ -178,8 +187,23 @@ func exec(c Case) (vh.Outcome, error) {
 		out.Classes = append(out.Classes, "client-cert-via-intermediate")
 	}
 	clientLeafDER := vh.LeafDER(clientCertFile)
+	clientKeyFile := f.ClientKeyFile()
+	if c.Spoil != "" {
+		// private copies: the farm's files are shared by every case of the process
+		sd, serr := os.MkdirTemp("", "vspoil")
+		if serr != nil {
+			return out, nil
+		}
+		defer os.RemoveAll(sd)
+		cb, _ := os.ReadFile(clientCertFile)
+		kb, _ := os.ReadFile(clientKeyFile)
+		clientCertFile, clientKeyFile = filepath.Join(sd, "client.crt"), filepath.Join(sd, "client.key")
+		if os.WriteFile(clientCertFile, cb, 0o644) != nil || os.WriteFile(clientKeyFile, kb, 0o600) != nil {
+			return out, nil
+		}
+	}
 	signer, err := vh.NewCrypkiSigner(crypki.SignerConfig{
-		TLSClientKeyFile: f.ClientKeyFile(), TLSClientCertFile: clientCertFile, TLSCACertFiles: files,
+		TLSClientKeyFile: clientKeyFile, TLSClientCertFile: clientCertFile, TLSCACertFiles: files,
 		CrypkiEndpoints: ips, CrypkiPort: uint(g.Port), Retries: 1, PerTryTimeout: 10 * time.Second,
 	}, c.ViaConf)
 	if err != nil {
@@ -302,6 +326,41 @@ func exec(c Case) (vh.Outcome, error) {
 			return out, vh.Errf("%s: the server asked for a client certificate (%s) but did not get the configured one (%d presented)", desc, ca, len(calls[0].PeerCerts))
 		}
 	}
+	// the client certificate file becomes unloadable behind the Signer's back (a rotation gone wrong): a later
+	// call fails, or still presents the configured certificate; it never succeeds without presenting one
+	if c.Spoil != "" && c.Endpoints[first].ClientAuth != "none" {
+		out.Classes = append(out.Classes, "client-certificate-file-spoiled="+c.Spoil)
+		orig, _ := os.ReadFile(clientCertFile)
+		var junk []byte
+		switch c.Spoil {
+		case "garbage":
+			junk = []byte("-----BEGIN CERTIFICATE-----\nnot a certificate\n-----END CERTIFICATE-----\n")
+		case "half":
+			junk = orig[:len(orig)/2]
+		case "mismatch":
+			junk, _ = os.ReadFile(f.CAFile("caB")) // a certificate, but not one for the configured key
+		}
+		later := time.Now().Add(2 * time.Second)
+		if os.WriteFile(clientCertFile, junk, 0o644) == nil && os.Chtimes(clientCertFile, later, later) == nil {
+			for k := 0; k < 2; k++ {
+				before := len(g.Servers[first].Calls())
+				var mc []ssh.PublicKey
+				var merr error
+				mctx, mcancel := context.WithTimeout(context.Background(), 30*time.Second)
+				perr := vh.Catch(func() { mc, _, merr = signer.Sign(mctx, proto.Clone(req).(*pb.SSHCertificateSigningRequest)) })
+				mcancel()
+				if perr != nil {
+					return out, vh.Errf("%s: a call after the client certificate file was spoiled (%s) crashed: %v", desc, c.Spoil, perr)
+				}
+				for _, call := range g.Servers[first].Calls()[before:] {
+					if len(call.PeerCerts) == 0 || !bytes.Equal(call.PeerCerts[0], clientLeafDER) {
+						return out, vh.Errf("%s: after the client certificate file was spoiled (%s), call %d reached the server, which asks for a client certificate (%s), with %d certificate(s) presented - not the configured one (Sign returned %d certificates, %v)", desc, c.Spoil, k+1, c.Endpoints[first].ClientAuth, len(call.PeerCerts), len(mc), merr)
+					}
+				}
+			}
+		}
+		return out, nil
+	}
 	// the Signer is a long-lived object: further calls on it, one after another, end the same way
 	if c.More > 0 && impostors > 0 {
 		out.Classes = append(out.Classes, "further-calls-on-the-same-signer")
@@ -322,7 +381,7 @@ func exec(c Case) (vh.Outcome, error) {
 	return out, nil
 }
 
-const rule = "CA bundles of one or two files (single CA, the other CA, both as separate files, both in one file, a file listed twice, a CA together with its successor under the same subject name and another key - in two files in either order or in one file; a quarter of the bundles name a file whose NAME contains pattern metacharacters, a backslash, blanks or non-ASCII letters - 'ca[AB].crt', 'ca?.crt', 'ca*.crt', '{caA,caForeign}.crt' ... - holding one CA, while the files such a pattern would match hold the other CAs, the foreign one included) and, 4 in 20, degenerate ones (no file at all, empty paths, an empty path next to a real file: either refused as configuration, or no CA beyond the readable files is trusted); the 'foreign' CA is installed as this process's host trust store (SSL_CERT_FILE), i.e. it stands for a publicly trusted CA that is not configured; 1..8 endpoints on loopback aliases (the caller's context carries a 30 s deadline; in a sixth of the cases it is already cancelled or ends after 1..1500 ms, i.e. possibly during some endpoint's attempt - then only 'impostors never receive the request' and 'success => the first genuine endpoint's certificate' are judged), each a real gRPC-over-TLS server holding an ECDSA or (a third) an RSA key, with identity {issued by configured CA A / CA B / CA A's same-named successor with matching IP SAN, by a foreign CA, self-signed, expired a day ago / 20 s ago, not yet valid, valid since 20 s only (genuine), valid for another address, issued by the CA of the RA's own client certificate} x protocol range {TLS 1.0-1.1 only, 1.2 only, 1.3 only, any} x client-certificate policy {none, request, require+verify, request while naming another CA, verify-if-given against the right / another client CA}; the signer is built from the struct or from the 'signer' map of a gensign configuration; the client certificate file holds the leaf alone, the leaf followed by its issuing CA, or (a quarter of the cases) a leaf issued by an intermediate CA followed by that intermediate, while the servers that verify client certificates know the root only; 1..4 Sign calls issued at the same moment on the one Signer, each judged like a single call, in three cases of seven followed by 3 / 12 / 50 further calls one after another (a Signer lives as long as the process); every server would sign (each with its own certificate, so the answering server is identifiable). Oracle: Sign succeeds iff some endpoint is genuine (issued by a CA of the bundle, right address, valid now, speaks >= TLS 1.2) and the answer is the first such endpoint's; impostors never receive the RPC; negotiated version >= 1.2; when the server asked, the peer certificate is byte-identical to the configured client certificate. Non-trivial: at least one impostor in the list."
+const rule = "CA bundles of one or two files (single CA, the other CA, both as separate files, both in one file, a file listed twice, a CA together with its successor under the same subject name and another key - in two files in either order or in one file; a quarter of the bundles name a file whose NAME contains pattern metacharacters, a backslash, blanks or non-ASCII letters - 'ca[AB].crt', 'ca?.crt', 'ca*.crt', '{caA,caForeign}.crt' ... - holding one CA, while the files such a pattern would match hold the other CAs, the foreign one included) and, 4 in 20, degenerate ones (no file at all, empty paths, an empty path next to a real file: either refused as configuration, or no CA beyond the readable files is trusted); the 'foreign' CA is installed as this process's host trust store (SSL_CERT_FILE), i.e. it stands for a publicly trusted CA that is not configured; 1..8 endpoints on loopback aliases (the caller's context carries a 30 s deadline; in a sixth of the cases it is already cancelled or ends after 1..1500 ms, i.e. possibly during some endpoint's attempt - then only 'impostors never receive the request' and 'success => the first genuine endpoint's certificate' are judged), each a real gRPC-over-TLS server holding an ECDSA or (a third) an RSA key, with identity {issued by configured CA A / CA B / CA A's same-named successor with matching IP SAN, by a foreign CA, self-signed, expired a day ago / 20 s ago, not yet valid, valid since 20 s only (genuine), valid for another address, issued by the CA of the RA's own client certificate} x protocol range {TLS 1.0-1.1 only, 1.2 only, 1.3 only, any} x client-certificate policy {none, request, require+verify, request while naming another CA, verify-if-given against the right / another client CA}; the signer is built from the struct or from the 'signer' map of a gensign configuration; the client certificate file holds the leaf alone, the leaf followed by its issuing CA, or (a quarter of the cases) a leaf issued by an intermediate CA followed by that intermediate, while the servers that verify client certificates know the root only; 1..4 Sign calls issued at the same moment on the one Signer, each judged like a single call, in three cases of seven followed by 3 / 12 / 50 further calls one after another (a Signer lives as long as the process); in a sixth of the cases the client certificate file (a private copy) is overwritten after the first call - garbage, nothing, its first half, a certificate for another key - with a newer modification time, and two more calls follow: each fails or still presents the configured certificate to a server that asks for one; every server would sign (each with its own certificate, so the answering server is identifiable). Oracle: Sign succeeds iff some endpoint is genuine (issued by a CA of the bundle, right address, valid now, speaks >= TLS 1.2) and the answer is the first such endpoint's; impostors never receive the RPC; negotiated version >= 1.2; when the server asked, the peer certificate is byte-identical to the configured client certificate. Non-trivial: at least one impostor in the list."
 
 func TestC18TLS(t *testing.T) {
 	vh.Run(t, vh.Spec[Case]{Property: "C18", Name: "TestC18TLS", Rule: rule, Gen: gen, Exec: exec})
